@@ -123,6 +123,19 @@ func TestVerifBounded(t *testing.T) {
 			zzGuard(t, "native ParseFile", src, func() { nparser.ParseFile(cpu, ntoken.NewFileSet(), "a.s", []byte(src)) })
 		})
 	}
+	// every CPU the parser knows, directives and x64 operands included, at the top of a file, behind the x64
+	// preamble, inside a function and behind a data label
+	asmWide := []string{"addi", "a0", ",", "1", "1.5", "(", ")", "[", "]", "f", ":", "\n", "mov", "rax", "qword", "ptr", "\"s\"", ".section", ".text", ".data", ".align", ".globl", ".byte", ".long", ".quad", ".ascii", ".intel_syntax", "noprefix", ".set", ".extern", "func", "{", "}", "#c\n"}
+	for _, cpu := range []abi.CPUType{abi.X64Unix, abi.X64Windows, abi.ARM64, abi.RISCV32, abi.RISCV64, abi.LOONG64} {
+		cpu := cpu
+		for _, pre := range []string{"", ".intel_syntax noprefix\n", "func f {\n", ".intel_syntax noprefix\n.section .text\n.align 4\n.globl f\nf:\n", ".section .text\n.align 2\n.globl f\nf:\n", ".section .data\n.align 2\nx: "} {
+			pre := pre
+			cases += zzSeqs(asmWide, nAsm-1, func(src string) {
+				full := pre + src
+				zzGuard(t, fmt.Sprintf("native ParseFile(%v)", cpu), full, func() { nparser.ParseFile(cpu, ntoken.NewFileSet(), "a.s", []byte(full)) })
+			})
+		}
+	}
 	// statements inside a function body, both syntaxes: every sequence of up to 3 tokens from an alphabet
 	// that holds every declaration and statement keyword (a declaration keyword in statement position is the
 	// classic place where error recovery fails to make progress)
@@ -228,5 +241,5 @@ func TestVerifBounded(t *testing.T) {
 			}
 		}
 	}
-	fmt.Printf("BOUNDED {\"cases\": %d, \"bound\": \"token sequences of length <= %d (.wa: 19 tokens; .wz: 13 tokens, length <= %d), <= %d (WAT, 19 tokens), <= %d (native assembly, 14 tokens, 2 CPUs); plus wider alphabets (.wa 53 tokens, WAT 45 tokens) one token shorter; type checking (LoadProgramFile) for sequences of <= %d tokens; statement-position sweeps inside a function body (34 .wz / 33 .wa tokens incl. every declaration keyword, length <= 3, thorough 4); every prefix of a WAT module with escapes; long padded inputs without extension; number literals of a radix prefix plus <= %d characters in 3 contexts; index/slice brackets of <= %d tokens; constant declarations A op B and op A over 20 boundary literals x 14 binary / 7 unary operators (7 declared types for some; divisions and shifts also inside a function body), one declaration per package through the parser and the type checker; no panic, each call returns within 10 s\"}\n", cases, nWa, nWa-1, nWat, nAsm, nCheck, nLit, nIdx)
+	fmt.Printf("BOUNDED {\"cases\": %d, \"bound\": \"token sequences of length <= %d (.wa: 19 tokens; .wz: 13 tokens, length <= %d), <= %d (WAT, 19 tokens), <= %d (native assembly, 14 tokens, 2 CPUs; one token shorter over 34 tokens incl. directives and x64 operands for all 6 CPUs in 6 contexts); plus wider alphabets (.wa 53 tokens, WAT 45 tokens) one token shorter; type checking (LoadProgramFile) for sequences of <= %d tokens; statement-position sweeps inside a function body (34 .wz / 33 .wa tokens incl. every declaration keyword, length <= 3, thorough 4); every prefix of a WAT module with escapes; long padded inputs without extension; number literals of a radix prefix plus <= %d characters in 3 contexts; index/slice brackets of <= %d tokens; constant declarations A op B and op A over 20 boundary literals x 14 binary / 7 unary operators (7 declared types for some; divisions and shifts also inside a function body), one declaration per package through the parser and the type checker; no panic, each call returns within 10 s\"}\n", cases, nWa, nWa-1, nWat, nAsm, nCheck, nLit, nIdx)
 }
